@@ -1,5 +1,5 @@
 CONSTANTS
-  Alphabet = {"a", "> a", ">", "- a", "  a", "", "    a", "---", "1. a", "> - a", "- b", "   a", "2. a", "* a", "-", "  - a", "```", "````", "~~~", "# a", "## a #", "===", "  ```", "***", " a", "      a", "> ```", "> > a", ">     a", "- > a", "  > a", ">   a", "1) a", "10. a", "1.", "0. a", "-   a", "-     a", "- ```", "```x", "  ~~~", "> ===", "> ---", "  ===", "  ---", "- ---", "=", "--", "  - b", "    - c", "  b", "    c", "b", "   - d", "   b", "     e", "> # a", "- # a", "#", "####### a", "#a", "# a #", "  # a", "    # a", "## ", "# #", "> 1. a", ">  - a", "   > a", "- - a", "1. - a", "  1. a", "   ```", "> ~~~", "* * *", "- - -", "+ a", "  + a", "  > > a", "    10. a", "a  b", "<div>", "</div>", "<pre>", "</pre>", "<!-- c", "c -->", "<x>", "> <div>", "  <div>", "<PRE>", "</style>", "<span>a", "</x>", "<!d>", "<?p", "?>", "- <div>", "<hr/>"}
+  Alphabet = {"a", "> a", ">", "- a", "  a", "", "    a", "---", "1. a", "> - a", "- b", "   a", "2. a", "* a", "-", "  - a", "```", "````", "~~~", "# a", "## a #", "===", "  ```", "***", " a", "      a", "> ```", "> > a", ">     a", "- > a", "  > a", ">   a", "1) a", "10. a", "1.", "0. a", "-   a", "-     a", "- ```", "```x", "  ~~~", "> ===", "> ---", "  ===", "  ---", "- ---", "=", "--", "  - b", "    - c", "  b", "    c", "b", "   - d", "   b", "     e", "> # a", "- # a", "#", "####### a", "#a", "# a #", "  # a", "    # a", "## ", "# #", "> 1. a", ">  - a", "   > a", "- - a", "1. - a", "  1. a", "   ```", "> ~~~", "* * *", "- - -", "+ a", "  + a", "  > > a", "    10. a", "a  b", "<div>", "</div>", "<pre>", "</pre>", "<!-- c", "c -->", "<x>", "> <div>", "  <div>", "<PRE>", "</style>", "<span>a", "</x>", "<!d>", "<?p", "?>", "- <div>", "<hr/>", "[a]: /u", "[a]", "(t", "t)", "[a]: /u (t)", "[A]: /w", "> [a]: /u", "[a]:", "/u"}
   MaxLines = 9
 SPECIFICATION Spec
 INVARIANT TypeOK
